@@ -85,6 +85,8 @@ def ops_for(fnlabel):
         return ['xpath.query.names']
     if fnlabel in ('XmlElement::namespaces', 'XmlElement::in_scope_namespace', 'XmlElement::find_nameapce_uri', 'XmlElement::namespace_name', 'XmlAttribute::namespace_name'):
         return ['info.namespace_names']
+    if fnlabel == 'XmlElement::attributes':
+        return ['info.attr_defaults']
     if fnlabel == 'XmlAttribute::normalized_value':
         return ['info.attr_norm']
     if fnlabel.startswith('info::attr_value_from_name'):
